@@ -8,19 +8,17 @@ From RC Require Import lib.PyStr lib.Lex lib.Pep440 model.TypesC20 gen.ConstsC20
 Import ListNotations.
 Open Scope string_scope.
 
-(* supported => eligible, for every CPython 2.x/3.x minor, glibc 2.x version and machine.
-   The wheel's three fields are PEP 425 compressed tag sets (the ABI field too, since /repo c54d5f0).
-   _partial: the unguarded statement is [supported_eligible_full_statement] (proofs file), false of
-   the code; the guard excludes the legacy alias names manylinux1/2010/2014_<arch> on machines other
-   than x86_64/i686 - refuted below. *)
-Theorem C20_supported_eligible_partial :
+(* supported => eligible, for every CPython 2.x/3.x minor, glibc 2.x version and machine - the FULL
+   statement: the wheel's three fields are PEP 425 compressed tag sets; no guard beside the domain of the
+   specification (wf_raw).  Its former exclusions were repaired in /repo: compressed ABI field (c54d5f0),
+   legacy alias names on machines other than x86_64/i686 (C20-1-legacy-alias-any-arch). *)
+Theorem C20_supported_eligible :
   forall r t id v build pyf abif platf fn,
   wf_raw r = true -> In t (sys_tags r) ->
-  (legacy_arch (r_arch r) = true \/ is_legacy_name (snd t) = false) ->
   wheel_has_tag pyf abif platf t ->
   eligible (cfg_of r) (wheel_cand id v build pyf abif platf fn) = true.
 Proof. exact supported_eligible. Qed.
-Print Assumptions C20_supported_eligible_partial.
+Print Assumptions C20_supported_eligible.
 
 (* the witness of the former C20_compressed_abi_refuted (corpus/C20/compressed-abi.json), fixed by c54d5f0 *)
 Theorem C20_compressed_abi_eligible :
@@ -31,12 +29,14 @@ Theorem C20_compressed_abi_eligible :
 Proof. exact compressed_abi_eligible. Qed.
 Print Assumptions C20_compressed_abi_eligible.
 
-Theorem C20_legacy_alias_arch_refuted :
-  exists r t pyf abif platf,
-    wf_raw r = true /\ In t (sys_tags r) /\ wheel_has_tag pyf abif platf t
-    /\ forall id v build fn, eligible (cfg_of r) (wheel_cand id v build pyf abif platf fn) = false.
-Proof. exact legacy_alias_arch_refuted. Qed.
-Print Assumptions C20_legacy_alias_arch_refuted.
+(* the witness of the former C20_legacy_alias_arch_refuted (corpus/C20/legacy-alias-arch.json) *)
+Theorem C20_legacy_alias_arch_eligible :
+  wf_raw r312_arm = true /\ In ("cp312", "cp312", "manylinux2014_aarch64") (sys_tags r312_arm)
+  /\ wheel_has_tag "cp312" "cp312" "manylinux2014_aarch64" ("cp312", "cp312", "manylinux2014_aarch64")
+  /\ forall id v build fn,
+       eligible (cfg_of r312_arm) (wheel_cand id v build "cp312" "cp312" "manylinux2014_aarch64" fn) = true.
+Proof. exact legacy_alias_arch_eligible. Qed.
+Print Assumptions C20_legacy_alias_arch_eligible.
 
 (* foreign => rejected, for every configuration c (coherent or not) *)
 Theorem C20_foreign_python_rejected :
@@ -136,7 +136,7 @@ Print Assumptions C20_foreign_rejected.
 (* manylinux1 / manylinux2010 / manylinux2014 wheels on a system whose glibc is older than 2.5 / 2.12 / 2.17 *)
 Theorem C20_legacy_newer_rejected :
   forall c k kk n arch,
-  legacy_arch arch = true -> legacy_name kk = Some n ->
+  legacy_name kk = Some n ->
   (forall p, In p (k_plats k) -> p = n ++ "_" ++ arch) -> k_plats k <> [] ->
   ~ In (lower (n ++ "_" ++ arch)) (c_platform_tags c) ->
   match c_glibc c with Some g => pair_ltb g (2%N, kk) = true | None => True end ->
@@ -163,65 +163,77 @@ Theorem C20_wheel_ranks_before_sdist :
 Proof. exact wheel_ranks_before_sdist. Qed.
 Print Assumptions C20_wheel_ranks_before_sdist.
 
-(* _partial: [rank_order_free_full_statement] (no NoDup guard) is false: C20_rank_tie_refuted *)
-Theorem C20_rank_order_free_partial :
+(* FULL statement, no guard: for every listing order the ranking shows the same sequence of sort keys and
+   of file names (the file name is the last key element: C20-3-sortkey-file-name) ... *)
+Theorem C20_rank_keys_order_free :
   forall c l l' out,
-  Permutation l l' -> NoDup (map (sortkey_d c) l) ->
+  Permutation l l' -> sort_candidates c l = Ok out ->
+  exists out', sort_candidates c l' = Ok out'
+               /\ map (sortkey_d c) out' = map (sortkey_d c) out /\ map fname out' = map fname out.
+Proof. exact rank_keys_order_free. Qed.
+Print Assumptions C20_rank_keys_order_free.
+
+(* ... and when the listed files have different names (wheels that differ in their tags do), the very same
+   candidates in the same order *)
+Theorem C20_rank_order_free :
+  forall c l l' out,
+  Permutation l l' -> NoDup (map fname l) ->
   sort_candidates c l = Ok out -> sort_candidates c l' = Ok out.
 Proof. exact rank_order_free. Qed.
-Print Assumptions C20_rank_order_free_partial.
+Print Assumptions C20_rank_order_free.
 
-Theorem C20_rank_tie_refuted :
-  exists c a b, a <> b /\ eligible c a = true /\ eligible c b = true
-    /\ k_version a = k_version b /\ k_type a = Wheel /\ k_type b = Wheel
-    /\ sort_candidates c [a; b] = Ok [a; b] /\ sort_candidates c [b; a] = Ok [b; a].
-Proof. exact rank_tie_refuted. Qed.
-Print Assumptions C20_rank_tie_refuted.
+(* the witness of the former C20_rank_tie_refuted (corpus/C20/rank-tie.json): one ranking for both listings *)
+Theorem C20_rank_tie_resolved :
+  eligible (cfg_of r312) w_py3 = true /\ eligible (cfg_of r312) w_py23 = true
+  /\ sort_candidates (cfg_of r312) [w_py3; w_py23] = Ok [w_py3; w_py23]
+  /\ sort_candidates (cfg_of r312) [w_py23; w_py3] = Ok [w_py3; w_py23].
+Proof. exact rank_tie_resolved. Qed.
+Print Assumptions C20_rank_tie_resolved.
 
 Theorem C20_sort_is_permutation :
   forall c l out, sort_candidates c l = Ok out -> Permutation out l.
 Proof. exact sort_is_permutation. Qed.
 Print Assumptions C20_sort_is_permutation.
 
-(* what "distinct keys" means for the interpreter tag: the python-tag score separates all cp/py tags
-   with a one-digit major and a minor up to 15 (so e.g. cp outranks py, newer minors outrank older).
-   _partial: [py_score_injective_full_statement] (every minor) is false - refuted below *)
+(* the python-tag score (impl | major << 28 | minor << 16: C20-4-py-score-minor-bits) separates all cp/py
+   tags with a one-digit major and a minor below 4096 (cp outranks py, newer minors outrank older).
+   _partial only in the letter: [py_score_injective_full_statement] (every minor) fails at minor 4096. *)
 Theorem C20_py_score_injective_partial :
   forall (i : bool) M m (i' : bool) M' m',
-  (M <= 9)%N -> (m <= 15)%N -> (M' <= 9)%N -> (m' <= 15)%N ->
+  (M <= 9)%N -> (m < 4096)%N -> (M' <= 9)%N -> (m' < 4096)%N ->
   py_version_score (if i then py_tag "c" "p" M (Some m) else py_tag "p" "y" M (Some m))
   = py_version_score (if i' then py_tag "c" "p" M' (Some m') else py_tag "p" "y" M' (Some m')) ->
   (i, M, m) = (i', M', m').
 Proof. exact py_score_injective. Qed.
 Print Assumptions C20_py_score_injective_partial.
 
-(* minor 16 shifted by 16 bits lands on the major's bits: cp316 scores like cp30, and on CPython 3.16
-   the two eligible wheels tie *)
-Theorem C20_py_score_minor16_refuted :
-  py_version_score "cp316" = py_version_score "cp30"
+(* the witness of the former C20_py_score_minor16_refuted (corpus/C20/minor16-score.json) *)
+Theorem C20_py_score_minor16_resolved :
+  py_version_score "cp316" <> py_version_score "cp30"
   /\ eligible (cfg_of r316) w_cp316 = true /\ eligible (cfg_of r316) w_cp30 = true
   /\ sort_candidates (cfg_of r316) [w_cp316; w_cp30] = Ok [w_cp316; w_cp30]
-  /\ sort_candidates (cfg_of r316) [w_cp30; w_cp316] = Ok [w_cp30; w_cp316].
-Proof. exact py_score_minor16_refuted. Qed.
-Print Assumptions C20_py_score_minor16_refuted.
+  /\ sort_candidates (cfg_of r316) [w_cp30; w_cp316] = Ok [w_cp316; w_cp30].
+Proof. exact py_score_minor16_resolved. Qed.
+Print Assumptions C20_py_score_minor16_resolved.
 
-(* the score of one wheel depends on the iteration order of its platforms set *)
-Theorem C20_platform_set_order_refuted :
-  exists c k k', k_plats k' = rev (k_plats k) /\ k_py k' = k_py k /\ k_abi k' = k_abi k
-    /\ k_filename k' = k_filename k /\ tag_score c k <> tag_score c k'.
-Proof. exact platform_set_order_refuted. Qed.
-Print Assumptions C20_platform_set_order_refuted.
+(* a legacy alias name scores like its PEP 600 spelling, on every machine *)
+Theorem C20_legacy_scores_as_pep600 :
+  forall c acc arch k n, legacy_name k = Some n ->
+  plat_step c acc (n ++ "_" ++ arch) = plat_step c acc (manylinux_tag 2 k arch).
+Proof. exact legacy_scores_as_pep600. Qed.
+Print Assumptions C20_legacy_scores_as_pep600.
 
-(* the model is handed the Python sets in iteration order; apart from the "any" reset that order is
-   irrelevant to the score (_partial: guard ~ In "any"), and it is always irrelevant to eligibility *)
-Theorem C20_tag_score_set_order_free_partial :
+(* the model is handed the Python sets in iteration order: that order is irrelevant to the score (FULL: the
+   "any" reset that made it matter was repaired, C20-2-any-platform-no-reset; witness of the former
+   C20_platform_set_order_refuted: corpus/C20/platform-set-order.json) and to eligibility *)
+Theorem C20_tag_score_set_order_free :
   forall c k k' l l',
   k_py k = Some l -> k_py k' = Some l' -> Permutation l l' ->
-  Permutation (k_plats k) (k_plats k') -> ~ In "any" (k_plats k) ->
+  Permutation (k_plats k) (k_plats k') ->
   k_abi k' = k_abi k -> k_filename k' = k_filename k ->
   tag_score c k' = tag_score c k.
 Proof. exact tag_score_set_order_free. Qed.
-Print Assumptions C20_tag_score_set_order_free_partial.
+Print Assumptions C20_tag_score_set_order_free.
 
 Theorem C20_usability_set_order_free :
   forall c k k' l l',
@@ -248,16 +260,15 @@ Proof. exact wheel_fields_roundtrip. Qed.
 Print Assumptions C20_wheel_fields_roundtrip.
 
 (* supported => eligible on the file name: the optional build tag only becomes extra_sort_info *)
-Theorem C20_supported_file_eligible_partial :
+Theorem C20_supported_file_eligible :
   forall r t id v name ver build pyf abif platf,
   field_ok name -> field_ok ver -> field_ok build -> field_ok pyf -> field_ok abif -> field_ok platf ->
   wf_raw r = true -> In t (sys_tags r) ->
-  (legacy_arch (r_arch r) = true \/ is_legacy_name (snd t) = false) ->
   wheel_has_tag pyf abif platf t ->
   exists k, wheel_cand_of_filename id v (wheel_filename name ver build pyf abif platf) = Some k
             /\ k_extra k = build /\ eligible (cfg_of r) k = true.
 Proof. exact supported_file_eligible. Qed.
-Print Assumptions C20_supported_file_eligible_partial.
+Print Assumptions C20_supported_file_eligible.
 
 Theorem C20_foreign_file_rejected :
   forall r id v name ver build pyf abif platf,
